@@ -299,3 +299,52 @@ Proof.
     unfold storage_term_ok. rewrite (seek_finds _ _ Hwf Hlo Hhi). reflexivity.
   - unfold raftlog_entries_ok. apply orb_true_iff. right. apply N.leb_le. lia.
 Qed.
+
+(* the converse direction: a follower whose NEXT entry is already below the leader's first index gets a snapshot *)
+Lemma snapshot_when_next_below_log : forall exact E snp next,
+  (next < log_first E)%N -> (next <= N.max (log_last E) snp)%N -> send_append exact E snp next = false.
+Proof.
+  intros exact E snp next H1 H2. unfold send_append, raftlog_entries_ok.
+  assert (A : (N.max (log_last E) snp <? next)%N = false) by (apply N.ltb_ge; assumption).
+  assert (B : (log_first E <=? next)%N = false) by (apply N.leb_gt; assumption).
+  rewrite A, B. apply andb_false_r.
+Qed.
+
+(* the entry just before the log is compacted *)
+Lemma seek_before_log : forall E i, wf_files E -> (0 < i)%N -> (i < log_first E)%N -> seek true E i = SCompacted.
+Proof.
+  intros E i Hwf Hi0 Hlt. pose proof (wf_shape _ Hwf) as Hshape.
+  destruct E as [fsz fs [cf cc]]. cbn [ef_fsz ef_files ef_cur fst snd] in *.
+  unfold seek. assert (Ei0 : (i =? 0)%N = false) by (apply N.eqb_neq; lia). rewrite Ei0.
+  unfold slot_ge. cbn [ef_files ef_cur].
+  destruct Hshape as [[-> _]|(f0 & Hf0 & Hne & Hhd & Hcont & Hcf)].
+  - unfold log_first in Hlt. cbn in Hlt.
+    assert (Ecur : file_slot_ge (cf, cc) i = (-1)%Z).
+    { unfold file_slot_ge. destruct (cf =? 0)%N eqn:E0; [reflexivity|]. cbn [orb].
+      assert (E : (i <? cf)%N = true) by (apply N.ltb_lt; lia). rewrite E. reflexivity. }
+    rewrite Ecur. reflexivity.
+  - rewrite (log_first_files (mkFiles fsz fs (cf, cc)) f0 Hne Hhd Hf0) in Hlt.
+    pose proof (files_end_ge _ _ _ Hcont) as Hge.
+    assert (Ecur : file_slot_ge (cf, cc) i = (-1)%Z).
+    { unfold file_slot_ge. assert (E : (i <? cf)%N = true) by (apply N.ltb_lt; lia). rewrite E, orb_true_r. reflexivity. }
+    rewrite Ecur. cbn [Z.leb Z.compare].
+    destruct fs as [|[f c] r]; [contradiction|]. cbn in Hhd. inversion Hhd; subst f.
+    cbn [find_ge]. assert (E1 : (i <=? f0)%N = true) by (apply N.leb_le; lia). rewrite E1.
+    cbn [nth_error]. assert (E2 : (f0 =? i)%N = false) by (apply N.eqb_neq; lia). rewrite E2. cbn [andb Nat.pred nth].
+    assert (E3 : file_slot_ge (f0, c) i = (-1)%Z).
+    { unfold file_slot_ge. assert (E : (i <? f0)%N = true) by (apply N.ltb_lt; assumption). rewrite E, orb_true_r. reflexivity. }
+    rewrite E3. reflexivity.
+Qed.
+
+(* ... and so does a follower whose log ends exactly where the leader's begins (its last entry is the one before the
+   leader's first), unless the leader's snapshot index is that very entry *)
+Lemma snapshot_when_prev_just_before_log : forall E snp next, wf_files E ->
+  (1 < next)%N -> next = log_first E -> (next - 1 <= N.max (log_last E) snp)%N -> snp <> (next - 1)%N ->
+  send_append true E snp next = false.
+Proof.
+  intros E snp next Hwf H1 Hn H2 Hs. unfold send_append, raftlog_term_ok.
+  assert (A : (next - 1 <? log_first E - 1)%N = false) by (apply N.ltb_ge; lia).
+  assert (B : (N.max (log_last E) snp <? next - 1)%N = false) by (apply N.ltb_ge; assumption).
+  rewrite A, B. cbn [orb]. unfold storage_term_ok. rewrite (seek_before_log E (next - 1)%N Hwf) by lia.
+  assert (C : (next - 1 =? snp)%N = false) by (apply N.eqb_neq; congruence). rewrite C. reflexivity.
+Qed.
